@@ -336,6 +336,8 @@ def run(run: Run):
     if nodes2:
         check_region(run, t2, "async", nodes2, tree2, env, maxlen)
     signature(run, env)
+    from props import C05_binding
+    C05_binding.run(run)
     run.not_decided.append("that Method._fields_mapping orders keys by first occurrence in the method_signature annotations (stage 1; generator function over an OrderedDict - outside pyvc's subset, covered by the native replay only)")
     run.native_standin("props.C05_native", "scenarios")
 
